@@ -1,6 +1,11 @@
 package openapi
 
-import "github.com/jsightapi/jsight-api-core/catalog"
+import (
+	"fmt"
+	"strings"
+
+	"github.com/jsightapi/jsight-api-core/catalog"
+)
 
 type PathItem struct {
 	Parameters []*ParameterObject `json:"parameters,omitempty"`
@@ -12,6 +17,15 @@ type PathItem struct {
 }
 
 func newPathItem(i *catalog.HTTPInteraction) (*PathItem, Error) {
+	// JSight knows only the path parameter which is a whole segment of the path,
+	// OpenAPI reads any "{name}" of the path template as a parameter which has to
+	// be declared. Such a path can't be converted.
+	if name, ok := partialSegmentParameter(i.Path().String()); ok {
+		return nil, newErr(fmt.Sprintf(
+			"the path %q cannot be converted to OpenAPI: {%s} is only a part of a path segment",
+			i.Path().String(), name))
+	}
+
 	pp, err := getPathParams(i)
 	if err != nil {
 		return nil, err
@@ -59,4 +73,28 @@ func (pi *PathItem) assignOperation(method catalog.HTTPMethod, o *Operation) {
 	default:
 		panic("Unsupported method")
 	}
+}
+
+// partialSegmentParameter returns the first "{name}" which is not a whole
+// segment of the path: a segment is a parameter only if it is "{", a name without
+// braces, "}"; any other segment with a brace in it is something OpenAPI would
+// read differently from JSight.
+func partialSegmentParameter(path string) (string, bool) {
+	for _, seg := range strings.Split(path, "/") {
+		if !strings.ContainsAny(seg, "{}") {
+			continue
+		}
+		if len(seg) >= 3 && seg[0] == '{' && seg[len(seg)-1] == '}' && !strings.ContainsAny(seg[1:len(seg)-1], "{}") {
+			continue
+		}
+		name := seg
+		if b := strings.IndexByte(seg, '{'); b >= 0 {
+			name = seg[b+1:]
+			if e := strings.IndexByte(name, '}'); e >= 0 {
+				name = name[:e]
+			}
+		}
+		return name, true
+	}
+	return "", false
 }
